@@ -56,7 +56,55 @@ def _sym_from_eigs(rng, eigs):
     return (a + a.T) / 2
 
 
+def make_dynrange(rng, idx):
+    """huge prior variance on a state that a very accurate sensor measures directly: P_kk / R up to 1e16..1e17
+    with cond(P) <= 1e10; the exact posterior variance of that state (~R) is far below eps |P|."""
+    n = rng.randint(1, 4)
+    m = rng.randint(1, min(2, n))
+    meas = rng.sample(range(n), m)
+    for _ in range(50):
+        c = _sym_from_eigs(rng, [10 ** rng.uniform(-0.7, 0.7) for _ in range(n)])
+        dg = np.sqrt(np.diag(c))
+        c = c / np.outer(dg, dg)
+        d2 = np.array([10 ** rng.uniform(-1, 4) for _ in range(n)])
+        for k in meas:
+            d2[k] = rng.uniform(1, 9) * 10 ** rng.choice([rng.uniform(2, 8), 8.0])
+        d = np.sqrt(d2)
+        P = c * np.outer(d, d)
+        P = (P + P.T) / 2
+        if np.linalg.cond(P) <= 1e10:
+            break
+    else:
+        P = np.diag(d2)
+    H = np.zeros((m, n))
+    for i, k in enumerate(meas):
+        H[i, k] = rng.choice([1.0, 1.0, -1.0, 2.0])
+    sizes = [m] if (m == 1 or rng.random() < 0.5) else [1, 1]
+    R = np.diag([rng.uniform(1, 9) * 10 ** rng.choice([-8.0, rng.uniform(-8, -2)]) for _ in range(m)])
+    x = _randn(rng, n) * 10 ** rng.uniform(-1, 3)
+    z = _randn(rng, m) * 10 ** rng.uniform(-1, 3)
+    pscale = float(np.diag(P).max())
+    return dict(idx=idx, n=n, m=m, pkind='dynrange', hkind='select', sizes=sizes, order=rng.choice(['C', 'F']),
+                pscale=pscale, rscale_rel=float(np.diag(R).min()) / pscale, x=x, P=P, z=z, H=H, R=R)
+
+
+def make_intcase(rng, idx):
+    """integer-valued inputs, passed to the implementation as int64 arrays"""
+    n, m = rng.randint(1, 4), rng.randint(1, 3)
+    ri = lambda *s: np.array([rng.randint(-3, 3) for _ in range(int(np.prod(s)))], dtype=float).reshape(s)
+    a, b = ri(n, n), ri(m, m)
+    P = a @ a.T + rng.choice([0, 1, 5]) * np.eye(n)
+    R = b @ b.T + rng.randint(1, 4) * np.eye(m)
+    return dict(idx=idx, n=n, m=m, pkind='integer', hkind='full', sizes=[m], order=rng.choice(['C', 'F']),
+                pscale=1.0, rscale_rel=1.0, ints=True, x=ri(n), P=P, z=ri(m), H=ri(m, n), R=R)
+
+
 def make_case(rng, small=False, idx=0):
+    u = rng.random()
+    if u < 0.15:
+        return make_dynrange(rng, idx)
+    if u < 0.22:
+        return make_intcase(rng, idx)
     n = rng.randint(1, 4) if small else rng.choice([1, 2, 3, 4, 5, 6, 8, 10, 12, 15, 17, 20])
     m = rng.randint(1, 3) if small else rng.randint(1, 6)
     pk = rng.choice(['well', 'well', 'ill', 'rankdef', 'zero', 'diag'])
@@ -163,7 +211,10 @@ def exact_posterior(x, P, z, H, R):
     K = _tr(SiHP)                    # P H^T S^-1   (P, S symmetric)
     mean = _add(x, _mm(_tr(HP), Sie))
     cov = _add(P, _mm(K, HP), -1)
-    return mean, cov, _mm(_tr(e), Sie)[0][0]
+    n = len(P)
+    KH = _mm(K, H)
+    U = [[(1 if i == j else 0) - KH[i][j] for j in range(n)] for i in range(n)]
+    return mean, cov, _mm(_tr(e), Sie)[0][0], K, U
 
 
 def _fl(a):
@@ -205,6 +256,23 @@ def _scales(x, P, z, H, R):
                 b_nu=b_nu + 1e-300, amp=(1 + nK * nH))
 
 
+def _joseph_bound(P, H, R, S, K, U):
+    """componentwise first-order rounding bound of U P U^T + K R K^T as the code evaluates it (K, U exact)."""
+    n, m = P.shape[0], R.shape[0]
+    dim = n + m
+    aP, aH, aR, aK, aU = np.abs(P), np.abs(H), np.abs(R), np.abs(K), np.abs(U)
+    Sinv = np.abs(np.linalg.inv(S))
+    dHP = EPS * dim * (aH @ aP)
+    dS = EPS * dim * (aH @ aP @ aH.T + aR)
+    dKt = Sinv @ (dHP + 3.0 * dS @ aK.T) + EPS * dim * aK.T
+    dK = dKt.T
+    dU = dK @ aH + EPS * dim * (aK @ aH + np.eye(n))
+    Ua, Ka = aU + dU, aK + dK
+    B = dU @ aP @ Ua.T + Ua @ aP @ dU.T + dK @ aR @ Ka.T + Ka @ aR @ dK.T \
+        + 2.0 * EPS * dim * (Ua @ aP @ Ua.T + Ka @ aR @ Ka.T)
+    return B + 1e-300
+
+
 def _arr(c, k):
     return np.array(c[k], dtype=float, order=c.get('order', 'C'))
 
@@ -230,6 +298,8 @@ def check_case(c, exact=None, verbose=False, stats=None):
     args = [_arr(c, k) for k in 'xPzHR']
     x, P, z, H, R = args
     n, m = len(x), len(z)
+    if c.get('ints'):                # same values, integer dtype (the reference uses the float copies)
+        args = [np.array(a, dtype=np.int64, order=c.get('order', 'C')) for a in args]
     snap = [a.tobytes() for a in args]
     try:
         xp, Pp, nu = kalman.correct(*args)
@@ -261,6 +331,21 @@ def check_case(c, exact=None, verbose=False, stats=None):
         slack * sc['b_mean'])
     cmp(f"posterior covariance != conditional covariance ({oracle})", float(np.abs(Pp - cov_ref).max()),
         slack * sc['b_cov'])
+    if ref is not None:
+        # entry by entry, against the rounding of the Joseph form itself (NOT against eps |P|): an entry of the
+        # exact posterior that is far below eps |P| (accurate sensor on a state with a huge prior variance) must
+        # still be returned to its own relative accuracy
+        B = _joseph_bound(P, H, R, sc['S'], _fl(ref[3]), _fl(ref[4]))
+        cmp("posterior covariance != conditional covariance entry by entry (exact rational), in units of the "
+            "componentwise rounding bound of the Joseph form", float((np.abs(Pp - cov_ref) / B).max()), 1.0)
+        dd = np.sqrt(np.clip(np.diag(cov_ref), 0.0, None))
+        idx = [i for i in range(n) if dd[i] > 0]
+        if idx:
+            sub = np.ix_(idx, idx)
+            sc_ = np.outer(dd[idx], dd[idx])
+            Ms = ((Pp + Pp.T) / 2)[sub] / sc_
+            cmp("posterior covariance not positive semidefinite relative to the exact posterior variances",
+                max(0.0, -float(np.linalg.eigvalsh(Ms)[0])), len(idx) * float((B[sub] / sc_).max()))
     # (2) symmetric, PSD, <= prior
     cmp("posterior covariance not symmetric", float(np.abs(Pp - Pp.T).max()), sc['b_cov'])
     Ps = (Pp + Pp.T) / 2
@@ -326,7 +411,7 @@ def check_case(c, exact=None, verbose=False, stats=None):
 # ---------------------------------------------------------------------------
 
 def _hexcase(c):
-    out = {k: c[k] for k in ('idx', 'n', 'm', 'pkind', 'hkind', 'sizes', 'order', 'pscale', 'rscale_rel', 'exact_nmax') if k in c}
+    out = {k: c[k] for k in ('idx', 'n', 'm', 'pkind', 'hkind', 'sizes', 'order', 'pscale', 'rscale_rel', 'exact_nmax', 'ints') if k in c}
     for k in 'xPzHR':
         a = np.asarray(c[k], dtype=float)
         out[k] = [float(v).hex() for v in a.ravel()]
